@@ -271,6 +271,7 @@ theorem popsCover_of_validateC (target : MG Name) (ds : List Domain) (o c : Even
   obtain ⟨_, h⟩ := ite_error_ok h
   obtain ⟨_, h⟩ := ite_error_ok h
   obtain ⟨_, h⟩ := ite_error_ok h
+  obtain ⟨_, h⟩ := ite_error_ok h
   obtain ⟨h4, h⟩ := ite_error_ok h
   obtain ⟨_, h⟩ := ite_error_ok h
   obtain ⟨_, h⟩ := ite_error_ok h
